@@ -5,8 +5,12 @@
          state = dirs|files|pid:LOC:try:nlocked:cur,...|oracle(0|1)
                  dirs: one 0/1 per stack; files: per stack pid,pid,... (creation order, newest first), stacks
                  separated by /
-         err <TAB> kind *)
-let loc_name (l : loc) : string =
+         err <TAB> kind
+   in :  ntrace <TAB> fx <TAB> fr <TAB> nstacks <TAB> pid,kind,root,ntry,path,user;... <TAB> schedule
+                <TAB> foreign entries of the lock directories at the start: name,name/name,... (stack 0 first)
+   out:  as above, the files being the NAMES in the directory (percent-encoded), newest first
+   (the protocol over file names of Model/LockName.v; user and names percent-encoded) *)
+let loc_name (l : loc) : Stdlib.String.t =
   match l with
   | LMkdir -> "LMkdir" | LListAll -> "LListAll" | LListAll2 -> "LListAll2" | LExists -> "LExists"
   | LScanX -> "LScanX" | LScanX2 -> "LScanX2" | LCreate -> "LCreate" | LValidate -> "LValidate"
@@ -17,9 +21,9 @@ let loc_name (l : loc) : string =
                 | GRmdir -> "Rmdir")
   | LDone -> "LDone" | LFailed -> "LFailed" | LCrashed -> "LCrashed"
 
-let nat_s (s : string) : nat = nat_of_int (int_of_string s)
+let nat_s (s : Stdlib.String.t) : nat = nat_of_int (int_of_string s)
 
-let dec_proc (s : string) =
+let dec_proc (s : Stdlib.String.t) =
   match String.split_on_char ',' s with
   | [p; k; r; n; path] ->
     let kind = (match k with "S" -> Sh | "E" -> Ex | _ -> failwith "bad kind") in
@@ -28,15 +32,15 @@ let dec_proc (s : string) =
     (nat_s p, (((kind, root), nat_s n), path))
   | _ -> failwith "bad proc"
 
-let dec_step (s : string) =
+let dec_step (s : Stdlib.String.t) =
   match String.split_on_char ':' s with
   | [p; c] -> (nat_s p, nat_s c)
   | [p] -> (nat_s p, O)
   | _ -> failwith "bad step"
 
-let ints (l : nat list) : string = String.concat "," (List.map (fun p -> string_of_int (int_of_nat p)) l)
+let ints (l : nat list) : Stdlib.String.t = String.concat "," (List.map (fun p -> string_of_int (int_of_nat p)) l)
 
-let show_state ((stacks, ps), ok) : string =
+let show_state ((stacks, ps), ok) : Stdlib.String.t =
   String.concat "|"
     [ String.concat "" (List.map (fun (d, _) -> field_of_bool d) stacks);
       String.concat "/" (List.map (fun (_, fs) -> ints fs) stacks);
@@ -45,8 +49,29 @@ let show_state ((stacks, ps), ok) : string =
           (int_of_nat lo.lnl) (int_of_nat lo.lcur)) ps);
       field_of_bool ok ]
 
-let handle (f : string array) : string =
+let dec_nproc (s : Stdlib.String.t) =
+  match String.split_on_char ',' s with
+  | [p; k; r; n; path; u] -> (dec_proc (String.concat "," [p; k; r; n; path]), dec_str u)
+  | _ -> failwith "bad named proc"
+
+let show_nstate ((stacks, ps), ok) : Stdlib.String.t =
+  String.concat "|"
+    [ String.concat "" (List.map (fun (d, _) -> field_of_bool d) stacks);
+      String.concat "/" (List.map (fun (_, fs) -> enc_strlist ',' fs) stacks);
+      String.concat "," (List.map (fun (p, lo) ->
+        Printf.sprintf "%d:%s:%d:%d:%d" (int_of_nat p) (loc_name lo.lpc) (int_of_nat lo.ltry)
+          (int_of_nat lo.lnl) (int_of_nat lo.lcur)) ps);
+      field_of_bool ok ]
+
+let handle (f : Stdlib.String.t array) : Stdlib.String.t =
   match f.(0) with
+  | "ntrace" ->
+    let procs = List.map dec_nproc (split_sep ';' f.(4)) in
+    let sched = List.map dec_step (split_sep ',' f.(5)) in
+    let junk = List.map (dec_strlist ',') (String.split_on_char '/' (if Array.length f > 6 then f.(6) else "")) in
+    (match ntrace_view (bool_of_field f.(1)) (bool_of_field f.(2)) procs junk (nat_s f.(3)) sched with
+     | Ok states -> "ok\t" ^ String.concat ";" (List.map show_nstate states)
+     | Err k -> "err\t" ^ err_name k)
   | "trace" ->
     let procs = List.map dec_proc (split_sep ';' f.(4)) in
     let sched = List.map dec_step (split_sep ',' f.(5)) in
